@@ -55,6 +55,9 @@ DOCS = {
   "A14": [st("html"), st("head"), st("title"), tx("T"), et("title"), et("head"), st("body", ' data-if="a > b"'), st("div", " title='1>0'"), tx("hi"), et("div"), et("body"), et("html")],
   # ~a~ ~y~ ~A~ are characters whose UTF-8 continuation bytes are 0xA0 / 0x85; unquoted values, attribute and tag names
   "A15": [st("html"), st("body"), st("p", " title=voil~a~~A~ data-~y~=1"), tx("t~a~"), et("p"), st("x-~y~n", ' class="x"', True), tx("u"), et("x-~y~n"), et("body"), et("html")],
+  # comments inside elements that the filters buffer (selector filters on head / body div, replace)
+  "A16": [st("html"), st("head"), COPEN, tx(" c "), CCLOSE, st("meta", ' class="x"', True), et("head"), st("body"), st("div", ' class="x"', True), COPEN, tx(" d "), CCLOSE, tx("hi"), et("div"),
+          st("p"), COPEN, tx("e"), CCLOSE, et("p"), et("body"), et("html")],
   # ---- comments, raw text, malformed, truncated (C03 / C04) ----
   "B1": [st("html"), COPEN, tx(" "), st("body"), tx(" "), CCLOSE, st("body"), tx("x"), et("body"), et("html")],
   "B2": [st("html"), st("head"), st("title"), tx("x "), st("body"), tx(" y"), et("title"), et("head"), st("body"), tx("z"), et("body"), et("html")],
@@ -135,7 +138,7 @@ def main():
     out.append("DocsMessy == {%s}" % ", ".join(n for n in DOCS if n.startswith("B")))
     out.append("FiltersAll == {%s}" % ", ".join(f for f in FILTERS if f != "F29"))
     out.append("FiltersQuick == {F1, F2, F3, F4, F5, F6, F7, F8, F10, F11, F12, F16, F21, F23, F24, F25, F26, F27}")
-    out.append("DocsQuick == {A2, A3, A7, A8, A9, A10, A11, A13, A14, A15, B1, B2, B3, B4, B5, B11, B12, B14, B15}")
+    out.append("DocsQuick == {A2, A3, A7, A8, A9, A10, A11, A13, A14, A15, A16, B1, B2, B3, B4, B5, B11, B12, B14, B15}")
     out.append("CasesQuick == Prod(DocsQuick, FiltersQuick)")
     out.append("CasesAll == Prod(DocsWell \\cup DocsMessy, FiltersAll)")
     out.append("=============================================================================")
